@@ -162,7 +162,20 @@ func genesisHistory(s *Stream, rng *rand.Rand, steps int, seen, sigs map[string]
 	for _, it := range idents {
 		it.seq, it.exists, it.dead, it.authKey, it.lastDoc = 0, false, false, nil, nil
 	}
+	// identifiers with characters that matter to the genesis text format (its key separator, spaces, non-ASCII):
+	// used only if the message validators admit them, i.e. never on the unchanged tree
+	gt := append([]string{}, ap.topics[:3]...)
+	for _, cand := range []string{"a/b", "a/b/c", "a b", "a:b", "caf\xc3\xa9", "a,b"} {
+		if (&aoltypes.MsgCreateTopicRequest{TopicName: cand, OwnerAddress: pa[0]}).ValidateBasic() == nil {
+			gt = append(gt, cand)
+		}
+	}
 	denoms := []string{"d1", "d2", "a.b"}
+	for _, cand := range []string{"a/b", "a b", "d1/x"} {
+		if (&pnfttypes.MsgCreateDenomRequest{Id: cand, Name: "n", Symbol: "s", Creator: pa[0]}).ValidateBasic() == nil {
+			denoms = append(denoms, cand)
+		}
+	}
 	pp := func() string { // mostly the first account, so that create → mint → transfer chains succeed
 		if rng.Intn(10) < 6 {
 			return pa[0]
@@ -176,13 +189,13 @@ func genesisHistory(s *Stream, rng *rand.Rand, steps int, seen, sigs map[string]
 		}
 		switch r := rng.Intn(30); {
 		case r < 3:
-			g.aol.msg(&aoltypes.MsgCreateTopicRequest{TopicName: ap.topics[rng.Intn(3)], Description: asciiOf(smallBytes(rng)), OwnerAddress: ap.addrs[rng.Intn(3)]})
+			g.aol.msg(&aoltypes.MsgCreateTopicRequest{TopicName: gt[rng.Intn(len(gt))], Description: asciiOf(smallBytes(rng)), OwnerAddress: ap.addrs[rng.Intn(3)]})
 		case r < 6:
-			g.aol.msg(&aoltypes.MsgAddWriterRequest{TopicName: ap.topics[rng.Intn(3)], Moniker: "m", Description: asciiOf(smallBytes(rng)), WriterAddress: ap.addrs[rng.Intn(7)], OwnerAddress: ap.addrs[rng.Intn(3)]})
+			g.aol.msg(&aoltypes.MsgAddWriterRequest{TopicName: gt[rng.Intn(len(gt))], Moniker: "m", Description: asciiOf(smallBytes(rng)), WriterAddress: ap.addrs[rng.Intn(7)], OwnerAddress: ap.addrs[rng.Intn(3)]})
 		case r < 10:
-			g.aol.msg(&aoltypes.MsgAddRecordRequest{TopicName: ap.topics[rng.Intn(3)], Key: smallBytes(rng), Value: smallBytes(rng), WriterAddress: ap.addrs[rng.Intn(7)], OwnerAddress: ap.addrs[rng.Intn(3)]})
+			g.aol.msg(&aoltypes.MsgAddRecordRequest{TopicName: gt[rng.Intn(len(gt))], Key: smallBytes(rng), Value: smallBytes(rng), WriterAddress: ap.addrs[rng.Intn(7)], OwnerAddress: ap.addrs[rng.Intn(3)]})
 		case r < 11:
-			g.aol.msg(&aoltypes.MsgDeleteWriterRequest{TopicName: ap.topics[rng.Intn(3)], WriterAddress: ap.addrs[rng.Intn(7)], OwnerAddress: ap.addrs[rng.Intn(3)]})
+			g.aol.msg(&aoltypes.MsgDeleteWriterRequest{TopicName: gt[rng.Intn(len(gt))], WriterAddress: ap.addrs[rng.Intn(7)], OwnerAddress: ap.addrs[rng.Intn(3)]})
 		case r < 14: // DID create
 			it := idents[rng.Intn(len(idents))]
 			doc, auth := genDoc(rng, it.did, it)
@@ -219,17 +232,17 @@ func genesisHistory(s *Stream, rng *rand.Rand, steps int, seen, sigs map[string]
 				}
 			}
 		case r < 19:
-			g.pnft.msg(&pnfttypes.MsgCreateDenomRequest{Id: denoms[rng.Intn(3)], Name: "n", Symbol: "s", Description: "x", Data: "dd", Creator: pp()})
+			g.pnft.msg(&pnfttypes.MsgCreateDenomRequest{Id: denoms[rng.Intn(len(denoms))], Name: "n", Symbol: "s", Description: "x", Data: "dd", Creator: pp()})
 		case r < 22:
-			g.pnft.msg(&pnfttypes.MsgMintPNFTRequest{DenomId: denoms[rng.Intn(3)], Id: []string{"1", "2", "3"}[rng.Intn(3)], Name: "t", Uri: "u", Data: "z", Creator: pp()})
+			g.pnft.msg(&pnfttypes.MsgMintPNFTRequest{DenomId: denoms[rng.Intn(len(denoms))], Id: []string{"1", "2", "3"}[rng.Intn(3)], Name: "t", Uri: "u", Data: "z", Creator: pp()})
 		case r < 24:
-			g.pnft.msg(&pnfttypes.MsgTransferPNFTRequest{DenomId: denoms[rng.Intn(3)], Id: []string{"1", "2", "3"}[rng.Intn(3)], Sender: pp(), Receiver: pa[1+rng.Intn(2)]})
+			g.pnft.msg(&pnfttypes.MsgTransferPNFTRequest{DenomId: denoms[rng.Intn(len(denoms))], Id: []string{"1", "2", "3"}[rng.Intn(3)], Sender: pp(), Receiver: pa[1+rng.Intn(2)]})
 		case r < 25:
-			g.pnft.msg(&pnfttypes.MsgTransferDenomRequest{Id: denoms[rng.Intn(3)], Sender: pp(), Receiver: pa[rng.Intn(3)]})
+			g.pnft.msg(&pnfttypes.MsgTransferDenomRequest{Id: denoms[rng.Intn(len(denoms))], Sender: pp(), Receiver: pa[rng.Intn(3)]})
 		case r < 26:
-			g.pnft.msg(&pnfttypes.MsgBurnPNFTRequest{DenomId: denoms[rng.Intn(3)], Id: []string{"1", "2", "3"}[rng.Intn(3)], Burner: pa[rng.Intn(3)]})
+			g.pnft.msg(&pnfttypes.MsgBurnPNFTRequest{DenomId: denoms[rng.Intn(len(denoms))], Id: []string{"1", "2", "3"}[rng.Intn(3)], Burner: pa[rng.Intn(3)]})
 		case r < 27:
-			g.pnft.msg(&pnfttypes.MsgDeleteDenomRequest{Id: denoms[rng.Intn(3)], Remover: pa[rng.Intn(3)]})
+			g.pnft.msg(&pnfttypes.MsgDeleteDenomRequest{Id: denoms[rng.Intn(len(denoms))], Remover: pa[rng.Intn(3)]})
 		default:
 			g.roundTrip(ns)
 			g.dumps()
@@ -241,7 +254,7 @@ func genesisHistory(s *Stream, rng *rand.Rand, steps int, seen, sigs map[string]
 	// queries after the final import
 	for _, o := range ap.addrs[:3] {
 		g.aol.qTopics(o, &query.PageRequest{Limit: 100, CountTotal: true})
-		for _, t := range ap.topics[:3] {
+		for _, t := range gt {
 			g.aol.qTopic(o, t)
 			g.aol.qRecord(o, t, 0)
 		}
